@@ -12,9 +12,13 @@ package compose_test
 // answer in that slot; every tool call is one callback unit carrying the tool's name.
 
 import (
+	"encoding/json"
+	"runtime"
+
 	"context"
 	"errors"
 	"fmt"
+	toolutils "github.com/cloudwego/eino/components/tool/utils"
 	"io"
 	"sort"
 	"strings"
@@ -40,7 +44,20 @@ type Tool17 struct {
 	Mark   string `json:"mark,omitempty"`  // prefix of the output (tells tool lists passed per call apart)
 }
 
+// Args17 is the argument type of tools built with components/tool/utils (kind "utils"): a pointer to it is
+// decoded from the call's JSON arguments, both fields optional.
+type Args17 struct {
+	A string `json:"a,omitempty"`
+	B string `json:"b,omitempty"`
+}
+
 func (d Tool17) out(args string) string {
+	if d.Kind == "utils" {
+		var a Args17
+		_ = json.Unmarshal([]byte(args), &a)
+		b, _ := json.Marshal(d.Name + "[a=" + a.A + ";b=" + a.B + "]")
+		return string(b)
+	}
 	if d.Empty {
 		return ""
 	}
@@ -150,6 +167,18 @@ func (t *bothTool17) StreamableRun(ctx context.Context, args string, opts ...too
 
 func mkTool(d Tool17) tool.BaseTool {
 	switch d.Kind {
+	case "utils":
+		return toolutils.NewTool(&schema.ToolInfo{Name: d.Name, Desc: "t"}, func(ctx context.Context, in *Args17) (string, error) {
+			id := (&baseTool17{d}).gate(ctx)
+			runtime.Gosched()
+			switch d.Fault {
+			case "err":
+				return "", fmt.Errorf("wrapped: %w", &toolErr{d.Name, id})
+			case "panic":
+				panic("tool " + d.Name + " panics on call " + id)
+			}
+			return d.Name + "[a=" + in.A + ";b=" + in.B + "]", nil
+		})
 	case "inv":
 		return &invTool17{baseTool17{d}}
 	case "str":
@@ -162,7 +191,7 @@ func genC17(t *rapid.T) CaseC17 {
 	c := CaseC17{}
 	nt := rapid.IntRange(3, 5).Draw(t, "nTools")
 	for i := 0; i < nt; i++ {
-		d := Tool17{Name: fmt.Sprintf("tool%d", i), Kind: []string{"inv", "str", "both"}[rapid.IntRange(0, 2).Draw(t, "kind")], Chunks: rapid.IntRange(1, 4).Draw(t, "chunks"), Empty: rapid.IntRange(0, 5).Draw(t, "empty") == 0}
+		d := Tool17{Name: fmt.Sprintf("tool%d", i), Kind: []string{"inv", "str", "both", "utils"}[rapid.IntRange(0, 3).Draw(t, "kind")], Chunks: rapid.IntRange(1, 4).Draw(t, "chunks"), Empty: rapid.IntRange(0, 5).Draw(t, "empty") == 0}
 		if rapid.IntRange(0, 7).Draw(t, "fault") == 0 {
 			d.Fault = []string{"err", "err", "streamerr", "panic"}[rapid.IntRange(0, 3).Draw(t, "faultKind")]
 		}
@@ -174,7 +203,13 @@ func genC17(t *rapid.T) CaseC17 {
 		if rapid.IntRange(0, 9).Draw(t, "unknown") == 0 {
 			name = "nosuchtool"
 		}
-		c.Calls = append(c.Calls, Call17{Tool: name, ID: fmt.Sprintf("c%d", i), Args: rapid.StringMatching("[a-c]{0,3}").Draw(t, "args")})
+		cl := Call17{Tool: name, ID: fmt.Sprintf("c%d", i), Args: rapid.StringMatching("[a-c]{0,3}").Draw(t, "args")}
+		for _, d := range c.Tools {
+			if d.Name == name && d.Kind == "utils" {
+				cl.Args = []string{`{}`, `{"a":"x"}`, `{"b":"y"}`, `{"a":"p","b":"q"}`, `{"a":"z"}`}[rapid.IntRange(0, 4).Draw(t, "jsonArgs")]
+			}
+		}
+		c.Calls = append(c.Calls, cl)
 	}
 	c.Handler = rapid.Bool().Draw(t, "handler")
 	c.Where = []string{"standalone", "graph", "graph"}[rapid.IntRange(0, 2).Draw(t, "where")]
